@@ -279,6 +279,15 @@ def dlVisibleVerdict (hs : List Nat) (cursor H : Nat) (cs : List DynList.Child) 
         s!"FAIL selected item {cursor} fits but is only partly visible (row {c.row}, height {c.height}, viewport {H})"
       else "ok"
 
+/-- Oracle, size: the surface returned is within the maximum constraint. -/
+def dlSizeVerdict (w h : Nat) (sz : Option String) : String :=
+  match sz.map (·.splitOn "x") with
+  | some [a, b] =>
+    match a.toNat?, b.toNat? with
+    | some a, some b => if a ≤ w ∧ b ≤ h then "ok" else s!"FAIL surface size {a}x{b} exceeds the constraint {w}x{h}"
+    | _, _ => "FAIL unparsable surface size"
+  | _ => "FAIL no surface size"
+
 def dlState (s : DynList.St) : String := s!"cursor={s.cursor} off={s.offset}"
 
 def heights? (s : String) : Option (List Nat) := commaNats? s
@@ -321,14 +330,15 @@ def dlStep (cfg : DynList.Cfg) (hs : List Nat) (s : DynList.St) (sel scr : Bool)
     match w.toNat?, h.toNat? with
     | some w, some h =>
       let (wst, mc) : W × String := match DynList.draw DynList.genFacts cfg hs s w h with
-        | .ok (s', cs) => (W.dl cfg hs s' false false, s!"{dlState s'} ch={dlChildren cs}")
+        | .ok (s', cs) => (W.dl cfg hs s' false false, s!"{dlState s'} ch={dlChildren cs} sz={w}x{h}")
         | .error _ => (W.dead, "panic")
       if impl = "panic" then (.dead, s!"{mc}\tpanic\tFAIL Dynamic.Draw panicked")
       else
         match implCursor, (kv "ch" fs).bind parseChildren with
         | some c, some cs =>
           let v := combine [dlLayoutVerdict cfg.gap hs cs,
-                            if sel ∧ !scr then dlVisibleVerdict hs c h cs else "ok"]
+                            if sel ∧ !scr then dlVisibleVerdict hs c h cs else "ok",
+                            dlSizeVerdict w h (kv "sz" fs)]
           (wst, s!"{mc}\t{impl}\t{v}")
         | _, _ => (.dead, bad)
     | _, _ => (.dead, bad)
